@@ -79,6 +79,10 @@ const (
 func (l *lexer) next() (r rune) {
 	if l.pos >= len(l.input) {
 		s, ok := <-l.inputs
+		for ok && s == "" {
+			// a zero-byte read is not the end of input
+			s, ok = <-l.inputs
+		}
 		if !ok {
 			if l.pos == l.start {
 				l.width = 0
